@@ -69,6 +69,8 @@ def random_history(rng, n, decades):
     return gyr, np.array(acc), np.array(mag)
 
 
+LONG_CLASSES = ("Madgwick", "Mahony", "EKF", "UKF", "AQUA", "ROLEQ", "FKF", "Complementary", "Fourati", "AngularRate")
+LONG_N = (12000, 50000)
 SINGLE_FRAME = ("Tilt", "TRIAD", "Davenport", "QUEST", "FLAE", "OLEQ", "SAAM", "FAMC", "FQA")
 
 
@@ -146,6 +148,48 @@ def run_cfg(args):
                                 b2 = FL.validity(cfg, o2[1].reshape(1, -1) if o2[1].ndim == 1 else o2[1], 1)
                                 if b2:
                                     t.fail("C03|%s|%s|%s" % (name2, b2, pose), dict(case, got=o2[1]))
+        # single-frame estimators that take a magnetic reference: the same exact canonical poses with the reference the data were made
+        # from (the measured horizontal field is then exactly parallel / anti-parallel / perpendicular to the reference one at the
+        # headings 0, 180 and +-90 degrees: exact zeros in the heading formulas)
+        if cfg["f"] in ("FQA", "TRIAD", "Davenport", "QUEST", "FLAE", "OLEQ") and cfg["arch"] == "ACCMAG":
+            for hc in HIST_CLASSES[2:]:
+                for s_ in (0, 1):
+                    gv = np.array((0, 0, 1) if s_ == 0 else (0, 0, -1), dtype=float)
+                    hv = np.array((1, 0, 2) if s_ == 0 else (2, 0, -1), dtype=float) / math.sqrt(5)
+                    dip = math.degrees(math.atan2(hv[2], hv[0]))
+                    extra = {"FQA": {"mag_ref": hv * 48.0}, "TRIAD": {"v1": gv, "v2": hv}, "OLEQ": {"magnetic_ref": hv}}.get(cfg["f"], {"magnetic_dip": dip})
+                    n_ = lengths[0]
+                    acc, mag = pose_history(hc, s_, n_)
+                    t.calls += 1
+                    t.keys.add((cname, "reference-of-the-data", hc, s_))
+                    o = core.outcome(lambda: FL.batch(cfg, None, acc, mag, extra=extra)[1])
+                    case = {"cfg": cfg, "history": hc, "n": n_, "variant": s_, "acc0": acc[0], "mag0": mag[0], "reference": extra}
+                    if o[0] != "ok":
+                        t.fail("C03|%s[reference of the data]|raises-%s|canonical-pose" % (cname, o[1]), dict(case, err=o[2]))
+                        continue
+                    bad = FL.validity(cfg, o[1], n_)
+                    if bad:
+                        t.fail("C03|%s[reference of the data]|%s|canonical-pose" % (cname, bad), dict(case, got=np.asarray(o[1])[:3]))
+        # one LONG history per recursive class and sensor combination (default gain and rate, quaternion output): "for any history
+        # length"; a recursion rewritten in closed form (powers of the gain, cumulative sums) under- or overflows only after thousands of rows
+        if cfg["f"] in LONG_CLASSES and cfg["gain"] == "default" and cfg["rate"] == "100Hz" and cfg["rep"] == "quaternion" and cfg["mode"] in ("-", "fixed", "closed"):
+            n_ = LONG_N[0 if len(lengths) <= 2 else 1] // (4 if cfg["f"] in ("UKF", "EKF", "FKF") else 1)
+            rng = core.rng(seed, "c03-long", cname)
+            gyr, acc, mag = random_history(rng, 500, False)
+            reps = (n_ + 499) // 500
+            gyr, acc, mag = (np.tile(x, (reps, 1))[:n_] for x in (gyr, acc, mag))
+            t.calls += 1
+            t.keys.add((cname, "long", n_))
+            o = core.outcome(lambda: FL.batch(cfg, gyr, acc, mag)[1])
+            case = {"cfg": cfg, "history": "long", "n": n_}
+            if o[0] != "ok":
+                t.fail("C03|%s|raises-%s|long-history" % (cname, o[1]), dict(case, err=o[2]))
+            else:
+                bad = FL.validity(cfg, o[1], n_)
+                if bad:
+                    rows_ = np.asarray(o[1], dtype=float)
+                    first_bad = int(np.argmax(~np.isfinite(rows_).all(axis=1))) if rows_.ndim == 2 else -1
+                    t.fail("C03|%s|%s|long-history" % (cname, bad), dict(case, first_bad_row=first_bad))
         if len(t.samples) < 2:
             t.samples.append({"cfg": cfg, "history_classes": HIST_CLASSES, "lengths": lengths})
     return t
